@@ -11,3 +11,5 @@ func verifSync(point string, a, b int) {}
 func verifDeadline(start, end time.Time, depth int) {}
 
 func verifLazyCut(pos *Position, cheap, alpha, beta int) {}
+
+func verifStableSort(moves []rankedMove) bool { return false }
